@@ -1,1 +1,15 @@
 import PorepyVerif.C41.Props
+#print axioms PorepyVerif.C41.multilinear_as_tree
+#print axioms PorepyVerif.C41.coefs_as_tree
+#print axioms PorepyVerif.C41.affine_as_tree
+#print axioms PorepyVerif.C41.interp_multilinear_exact
+#print axioms PorepyVerif.C41.interp_tensor_exact
+#print axioms PorepyVerif.C41.grad_multilinear_exact
+#print axioms PorepyVerif.C41.grad_linear_exact
+#print axioms PorepyVerif.C41.weights_partition_unity
+#print axioms PorepyVerif.C41.base_in_range
+#print axioms PorepyVerif.C41.point_in_range
+#print axioms PorepyVerif.C41.adaptive_eq_standard
+#print axioms PorepyVerif.C41.adaptive_eq_standard_multilinear
+#print axioms PorepyVerif.C41.adaptive_multilinear_exact
+#print axioms PorepyVerif.C41.adaptive_fill_on_demand
